@@ -11,12 +11,13 @@ LEVEL = "model_checking"
 
 def run(ctx):
     lc.model_checks(ctx)
+    lc.impl_model_checks(ctx)
     cases = lc.scenario_cases(ctx, "Scenarios", "Scenarios.cfg")
     q = ctx.quick()
     rng = random.Random(ctx.seed)
     if q:
         retry_gates = ("ds.upreset.retry", "ds.retry.begin", "ds.retry.pool", "ds.retry.chosen")
-        core = [c for c in cases if c["hold"] == "none" or (c["hold"] in retry_gates and c["hold2"] == "none")]
+        core = [c for c in cases if c["hold"] == "none" or (c["hold"] in retry_gates and c["hold2"] == "none") or c.get("steps")]
         three = [c for c in cases if c["hold2"] != "none"]
         rest = [c for c in cases if c not in core and c["hold2"] == "none"]
         picked = core + rng.sample(three, min(len(three), 260)) + rng.sample(rest, min(len(rest), 300))
